@@ -104,6 +104,19 @@ func (e *Emulator) Step() (*Step, error) {
 	efs = exprtransform.EffectsApply(efs, func(ex expr.Expr) expr.Expr {
 		return e.eval(ex, s)
 	})
+	if s.err != nil {
+		return nil, s.err
+	}
+
+	// No effect is applied unless all of them can be.
+	for _, ef := range efs {
+		if mStore, ok := ef.(expr.MemStore); ok {
+			addr, _ := expr.ConstUint[model.Addr](mStore.Addr().(expr.Const))
+			if err := checkAccess(addr, mStore.Width()); err != nil {
+				return nil, err
+			}
+		}
+	}
 
 	var jumped bool
 	for _, ef := range efs {
@@ -143,6 +156,15 @@ func (e *Emulator) Step() (*Step, error) {
 	}
 
 	return s, nil
+}
+
+// checkAccess refuses memory accesses which do not end below the end of the
+// address space. Memories cannot represent those.
+func checkAccess(addr model.Addr, w expr.Width) error {
+	if end := addr + model.Addr(w); end < addr {
+		return fmt.Errorf("memory access of %d bytes at 0x%x exceeds the address space", w, addr)
+	}
+	return nil
 }
 
 // eval substitutes all non-constant expressions (register loads and memory
@@ -231,6 +253,13 @@ func (e *Emulator) evalMemoryFully(ex expr.Expr, s *Step) expr.Expr {
 		// all registers are already evaluated -> this MUST be constant.
 		addrConst := exprtransform.ConstFold(curr.Addr()).(expr.Const)
 		addr, _ := expr.ConstUint[model.Addr](addrConst)
+
+		if err := checkAccess(addr, w); err != nil {
+			if s.err == nil {
+				s.err = err
+			}
+			return expr.NewConst(nil, w), true
+		}
 
 		val := e.memValue(key, addr, w)
 		s.memRead(key, addr, val)
